@@ -367,3 +367,20 @@ LEVEL_TEXT += _ADDR5C
 _ADDR5D = ' Borrowed: R07.2 (an explicit null of an Optional field with a default is stored, not dropped).'
 EXPLANATION += _ADDR5D
 LEVEL_TEXT += _ADDR5D
+
+
+_run_before_r6b = run
+
+
+def run(repo, rep, tier):  # noqa: F811 -- round-6 remedies (core/round6.py)
+    _run_before_r6b(repo, rep, tier)
+    if getattr(rep, "borrowed", False):
+        return
+    from ..core import round6 as _r6b
+    _r6b.optional_member_selection(repo, rep, "R11.13")
+    _r6b.emitted_tuple_displays(repo, rep, "R16.7")
+
+
+_ADDR6C = ' R11.13: the Optional branch of the registries selects the member with not_none_type_arg, not by position. Borrowed: R16.7.'
+EXPLANATION += _ADDR6C
+LEVEL_TEXT += _ADDR6C
